@@ -99,9 +99,16 @@ func runMutants(prop, repo, verif string) []mutantResult {
 	}
 	// behaviour-preserving refactorings (written by independent agents, each verified against the
 	// test suite and by differential testing): the check must stay silent on every one of them
+	// (only those that touch a directory the property's rules look at: the directories of the
+	// property's anchor files plus the packages its rules are bound to; a refactoring of chat/ says
+	// nothing about the region file)
+	scope := propertyScope(prop, verif)
 	refs, _ := filepath.Glob(filepath.Join(verif, "refactors", "*", "patch.diff"))
 	sort.Strings(refs)
 	for _, p := range refs {
+		if !patchTouches(p, scope) {
+			continue
+		}
 		jobs = append(jobs, job{name: "refactors/" + filepath.Base(filepath.Dir(p)), patch: p, source: "behaviour-preserving refactoring", expected: "silent"})
 	}
 	if len(jobs) == 0 {
@@ -204,4 +211,63 @@ func summarizeMutants(rs []mutantResult) (killed, total, regress int, lines []st
 		}
 	}
 	return
+}
+
+// propertyScope: directory prefixes whose files the checks of a property read. nil = everything.
+func propertyScope(prop, verif string) []string {
+	extra := map[string][]string{
+		"C01": {"nbt/"}, "C02": {"nbt/"}, "C03": {"nbt/"}, "C04": {"nbt/"},
+		"C05": {"net/"}, "C06": {"net/", "nbt/"}, "C07": {"net/"},
+		"C08": nil, "C09": nil,
+		"C10": {"net/"}, "C11": {"level/", "save/"}, "C12": {"level/", "save/"}, "C13": {"level/", "save/", "net/packet/", "nbt/"},
+		"C14": {"save/"}, "C15": {"save/"}, "C16": {"net/"}, "C17": {"chat/", "net/packet/", "nbt/"},
+		"C18": {"offline/", "bot/", "server/", "yggdrasil/"},
+		"C19": {"bot/", "server/", "net/", "data/", "chat/", "offline/", "registry/"},
+		"C20": {"net/", "nbt/", "level/", "server/", "bot/"},
+	}
+	sc, ok := extra[prop]
+	if !ok || sc == nil {
+		return nil
+	}
+	// the directories of the anchor files named by the property itself
+	if b, err := os.ReadFile(filepath.Join(verif, "properties.jsonl")); err == nil {
+		for _, ln := range strings.Split(string(b), "\n") {
+			var p struct {
+				ID      string `json:"id"`
+				Anchors struct {
+					Files []string `json:"files"`
+				} `json:"anchors"`
+			}
+			if json.Unmarshal([]byte(ln), &p) == nil && p.ID == prop {
+				for _, f := range p.Anchors.Files {
+					sc = append(sc, filepath.Dir(f)+"/")
+				}
+			}
+		}
+	}
+	return sc
+}
+
+// patchTouches: the patch changes a file under one of the prefixes (nil = any).
+func patchTouches(patch string, prefixes []string) bool {
+	if prefixes == nil {
+		return true
+	}
+	b, err := os.ReadFile(patch)
+	if err != nil {
+		return true
+	}
+	for _, ln := range strings.Split(string(b), "\n") {
+		for _, mark := range []string{"+++ b/", "--- a/"} {
+			if strings.HasPrefix(ln, mark) {
+				f := strings.TrimPrefix(ln, mark)
+				for _, pre := range prefixes {
+					if strings.HasPrefix(f, pre) {
+						return true
+					}
+				}
+			}
+		}
+	}
+	return false
 }
